@@ -6,7 +6,7 @@ import (
 	"verif/engine/gx"
 )
 
-const Gates = "pp.send,pp.fin,pp.flush,bridge.take,retryBatch.out"
+const Gates = "pp.send,pp.fin,pp.flush,bridge.take,retryBatch.out,retryBatch.start"
 const Faults = "notleader,timeout-appended,fatal,missing,drop,drop-appended"
 
 var Assumptions = []string{
